@@ -8,6 +8,11 @@ pub fn hex(b: &[u8]) -> String {
     if b.is_empty() {
         return "-".to_string();
     }
+    // values of 64 KiB and more (only `bigfill` writes them) are printed as their length: the model holds a
+    // placeholder for them and prints the same
+    if b.len() >= 65536 {
+        return format!("BIG{}", b.len());
+    }
     const DIGITS: &[u8; 16] = b"0123456789abcdef";
     let mut s = String::with_capacity(b.len() * 2);
     for x in b {
